@@ -113,7 +113,8 @@ def run_tlc(module, cfg, workers=8, timeout=600, env=None, trace=None, simulate=
     jopts = "-Xss1g"
     if deque:
         jopts += " -Dtlc2.tool.queue.IStateQueue=StateDeque"
-    cmd = ["timeout", str(timeout), "java", "-XX:+UseParallelGC", f"-Xmx{heap}", "-Xss1g"]
+    # (TLC's own temporary directories go into the run's metadir, which is removed below - not into /tmp)
+    cmd = ["timeout", str(timeout), "java", "-XX:+UseParallelGC", f"-Xmx{heap}", "-Xss1g", f"-Djava.io.tmpdir={meta}"]
     if deque:
         cmd.append("-Dtlc2.tool.queue.IStateQueue=StateDeque")
     cmd += ["-cp", TLA_JAR, "tlc2.TLC", "-workers", str(workers), "-metadir", meta, "-cleanup",
